@@ -656,6 +656,42 @@ func (r *runner) mainStream(nprog int) int {
 		mkFile("health.thrift", "acme.api", none, enum("Kind", "A", "B"), strct("Header", fd(1, "id", i32)), cdef("MaxLimit", i32, cInt("10")),
 			svc("Health", nil, fnVoid("ping", nil, nil))),
 		mkFile("base.thrift", "acme.base", none, svc("Base", nil, fnVoid("version", nil, nil)))}}, "go", nil, true, "fixed-same-namespace-include"})
+	// integer constants given BY IDENTIFIER (an enum value, another integer constant, also across an include) and used where
+	// another integer width or a typedef of one is expected: constant bodies, list elements, map keys, field defaults,
+	// members of a struct literal (Resolver.onInt must convert: the constant may be a typed Go constant)
+	{
+		i64t, i16t, bytet := tBase(idlgen.I64), tBase(idlgen.I16), tBase(idlgen.Byte)
+		jobFields := []*idlgen.Field{
+			fdDef(1, "level", i32, cId("levels.DEFAULT_LEVEL")), fdDef(2, "urgent", i32, cId("levels.Level.HIGH")),
+			fdDef(3, "retries", i16t, cId("levels.MAX_RETRIES")), fdDef(4, "weight", tRef(0, "Weight"), cId("levels.DEFAULT_LEVEL")),
+			fdDef(5, "budget", i64t, cId("BASE_WEIGHT")), fdDef(6, "slots", tList(i16t), cList(cId("levels.SLOTS"), cInt("4"))),
+			fdDef(7, "tiny", bytet, cId("levels.DEFAULT_LEVEL")), fdDef(8, "small", tRef(1, "Small"), cId("LEVEL"))}
+		jobFields[4].Req = idlgen.Optional
+		plan = append(plan, plannedUnit{&Program{Files: []*File{
+			mkFile("job.thrift", "sched.job", []int{1},
+				tdef("Weight", i64t),
+				cdef("RETRIES", i32, cId("levels.MAX_RETRIES")), cdef("LEVEL", i32, cId("levels.DEFAULT_LEVEL")),
+				cdef("BASE_WEIGHT", i64t, cId("levels.DEFAULT_LEVEL")),
+				cdef("WEIGHTS", tList(i64t), cList(cInt("1"), cId("levels.SLOTS"), cId("levels.DEFAULT_LEVEL"))),
+				cdef("SLOT_NAMES", tMap(i16t, str), cMap(cId("levels.SLOTS"), cStr("all"), cId("levels.DEFAULT_LEVEL"), cStr("one"))),
+				strct("Job", jobFields...),
+				cdef("TEMPLATE", tRef(0, "Job"), cMap(cStr("weight"), cId("LEVEL"), cStr("retries"), cId("levels.DEFAULT_LEVEL"))),
+				svc("Scheduler", nil, &idlgen.Function{Name: "submit", Ret: tRef(0, "Job"), Args: []*idlgen.Field{fd(1, "job", tRef(0, "Job")), fdDef(2, "weight", i64t, cId("levels.DEFAULT_LEVEL"))}})),
+			mkFile("levels.thrift", "sched.levels", none,
+				&idlgen.Enum{Name: "Level", Values: []idlgen.EnumValue{{Name: "LOW", Value: 1, HasValue: true}, {Name: "NORMAL", Value: 5, HasValue: true}, {Name: "HIGH", Value: 9, HasValue: true}}},
+				tdef("Small", i16t),
+				cdef("DEFAULT_LEVEL", i32, cId("Level.NORMAL")), cdef("MAX_RETRIES", i32, cInt("3")), cdef("SLOTS", i16t, cInt("16")))}}, "go", nil, true, "fixed-int-const-by-ident"})
+	}
+	// two IDL files with one base name and one go namespace in different directories, reached through different include
+	// chains: with -r both map to common.go, the second is written as common_1.go — each with ITS OWN import block
+	plan = append(plan, plannedUnit{&Program{Files: []*File{
+		mkFile("order.thrift", "shop.order", []int{1, 2},
+			strct("Order", fd(1, "id", tBase(idlgen.I64)), fd(2, "total", tRef(1, "Money")), fdOpt(3, "shipment", tRef(2, "Shipment"))),
+			svc("Orders", nil, &idlgen.Function{Name: "get", Ret: tRef(0, "Order"), Args: []*idlgen.Field{fd(1, "id", tBase(idlgen.I64))}})),
+		mkFile("billing/common.thrift", "shop.common", none, enum("Currency", "EUR", "USD"),
+			strct("Money", fd(1, "cents", tBase(idlgen.I64)), fdOpt(2, "currency", tRef(1, "Currency")))),
+		mkFile("shipment.thrift", "shop.shipment", []int{3}, strct("Shipment", fd(1, "to", tRef(3, "Address")), fdDef(2, "parcels", i32, cId("common.MAX_PARCELS")))),
+		mkFile("shipping/common.thrift", "shop.common", none, cdef("MAX_PARCELS", i32, cInt("20")), strct("Address", fd(1, "street", str)))}}, "go", nil, true, "fixed-same-output-path"})
 	// fastgo keeps the seen-bits of required fields in a bitset of 8-bit words: every count around a word boundary
 	{
 		var defs []interface{}
